@@ -345,7 +345,14 @@ class Run(RunBase):
                         mp[c][rng.randrange(len(mp[c]))] = len(mp[c]) + rng.randrange(2)  # out of range
                     else:
                         mp[c] = mp[c][:-1]            # too short
-            return {"op": "reorder", "obj": k, "map": mp}
+            op = {"op": "reorder", "obj": k, "map": mp}
+            if not bad and rng.random() < 0.2:
+                # maps longer than the species lists (a zero-padded rectangular table): the documented formula reads
+                # only the first len(list) entries of each map
+                width = max([len(x) for x in mp] + [1]) + rng.randrange(0, 3)
+                op["map"] = [list(x) + [0] * (width - len(x)) for x in mp]
+                op["rect"] = rng.random() < 0.5
+            return op
         if x < 0.65:
             op = {"op": "imul", "obj": k, "g": rng.randrange(len(self.glist))}
             if rng.random() < 0.35:
@@ -528,7 +535,10 @@ class Run(RunBase):
             return self.expect_reject(k, lambda: sup.reorder(mp), (ValueError, IndexError), "reorder")
         if bad == "dup":
             return self.expect_reject(k, lambda: sup.reorder(mp), (ValueError,), "reorder")
-        ret = sup.reorder(mapping=mp) if op.get("kw") else sup.reorder(mp)
+        if any(len(p_) > len(l_) for l_, p_ in zip(m.order, mp)):
+            self.probes["reorder-map-longer-than-list"] += 1
+        arg = np.array(mp, dtype=int) if (op.get("rect") and len(set(len(x) for x in mp)) == 1 and mp and len(mp[0]) > 0) else mp
+        ret = sup.reorder(mapping=arg) if op.get("kw") else sup.reorder(arg)
         if ret is not sup:
             self.fail("api", "reorder did not return self")
         m.order = new
